@@ -1,5 +1,13 @@
 package region
 
+import (
+	"context"
+
+	"github.com/tsuna/gohbase/hrpc"
+	"github.com/tsuna/gohbase/pb"
+	"google.golang.org/protobuf/proto"
+)
+
 // C04 (a) — classification of server exceptions, for EVERY class-name string (symbolic bytes
 // and length): the listed retry-later classes map to RetryableError, the region classes to
 // NotServingRegionError (java.io.IOException only with its "log is closed" stack), the server
@@ -61,4 +69,58 @@ func VerifClassify() {
 		verifReach("other")
 		verifAssert(!isRetry && !isRegion && !isServer, "every other exception is returned to the caller and not retried")
 	}
+}
+
+// VerifClassifyInMulti: the exceptions of the actions of one multi-response are classified each
+// on its own: two java.io.IOException of which only one is the "log is closed" region fault
+// (and a region-class and a plain exception), in either order, give each call the error of its
+// own exception - a region fault is retried, an application error surfaces.
+func VerifClassifyInMulti() {
+	conn := &vConn{}
+	c := vNewClient(conn, 4)
+	reg := vReg("t,,1")
+	type exc struct {
+		class, stack string
+		region       bool
+	}
+	kinds := []exc{
+		{"java.io.IOException", "java.io.IOException: Cannot append; log is closed\n at z", true},
+		{"java.io.IOException", "java.io.IOException: disk quota exceeded\n at z", false},
+		{"org.apache.hadoop.hbase.NotServingRegionException", "at x.y", true},
+		{"x.ActionFailed", "at x.y", false},
+	}
+	m := newMulti(4)
+	calls := []hrpc.Call{vGet(context.Background(), "a", reg), vGet(context.Background(), "b", reg)}
+	m.add(calls)
+	verifAssert(c.trySend(m) == nil, "send")
+	var id uint32
+	for k := range c.sent {
+		id = k
+	}
+	rar := &pb.RegionActionResult{}
+	var want []bool
+	for i := range calls {
+		k := kinds[verifChoose(len(kinds))]
+		want = append(want, k.region)
+		rar.ResultOrException = append(rar.ResultOrException, &pb.ResultOrException{Index: proto.Uint32(uint32(i + 1)),
+			Exception: &pb.NameBytesPair{Name: proto.String(k.class), Value: []byte(k.stack)}})
+	}
+	mr := &pb.MultiResponse{RegionActionResult: []*pb.RegionActionResult{rar}}
+	h := &pb.ResponseHeader{CallId: proto.Uint32(id)}
+	body := vAppendDelimited(nil, vWire(h, false))
+	body = vAppendDelimited(body, vWire(mr, false))
+	err := c.receive(&vReader{b: vFrame(body, uint32(len(body)))})
+	vPending, vUnmarshalFails = nil, nil
+	verifAssert(err == nil, "a conforming multi-response is processed")
+	for i, cl := range calls {
+		verifAssert(vResults(cl) == 1, "every caller of the multi gets exactly one result")
+		r := <-cl.ResultChan()
+		verifAssert(r.Error != nil, "a failed action gets an error")
+		_, isRegion := r.Error.(NotServingRegionError)
+		_, isRetry := r.Error.(RetryableError)
+		_, isServer := r.Error.(ServerError)
+		verifAssert(isRegion == want[i], "each action's exception is classified on its own: a region fault is retried, an application error surfaces")
+		verifAssert(!isRetry && !isServer, "none of these is a retry-later or a server fault")
+	}
+	verifReach("classified-in-multi")
 }
